@@ -16,11 +16,13 @@ import (
 	"bytes"
 	"encoding/hex"
 	"fmt"
+	"os"
 	"reflect"
 	"runtime"
 	"runtime/debug"
 	"sort"
 	"strings"
+	"time"
 	"unicode/utf8"
 
 	gmqtt "github.com/DrmagicE/gmqtt"
@@ -234,6 +236,10 @@ type c06 struct {
 	cnt    map[string]int64
 	seen   map[string]bool // rule|class already reported by this process (with a case)
 	verb   bool
+	// lazyExtra, when set, supplies the descriptive keys of the next violation case
+	lazyExtra func() map[string]any
+	// first input per class that gmqtt rejects, the reference accepts and no rule explains
+	unexplained map[string]string
 }
 
 func newC06(c *explore.Ctx) *c06 {
@@ -243,6 +249,10 @@ func newC06(c *explore.Ctx) *c06 {
 func (k *c06) count(name string, n int64) { k.cnt[name] += n }
 
 func (k *c06) flush() {
+	for cl, ex := range k.unexplained {
+		k.c.Note("gmqtt rejects / reference accepts, %s, e.g. %s", cl, ex)
+	}
+	k.unexplained = nil
 	for n, v := range k.cnt {
 		k.c.Count(n, v)
 		delete(k.cnt, n)
@@ -327,11 +337,33 @@ func c06ValidShared(f string) bool {
 	return refmqtt.ValidTopicFilter(rest[i+1:])
 }
 
+func c06FilterDetail(f string) string {
+	if f == "" {
+		return "empty"
+	}
+	if c := c06StrCause(f); c != "" {
+		return c
+	}
+	if strings.HasPrefix(f, "$share/") {
+		rest := f[len("$share/"):]
+		i := strings.IndexByte(rest, '/')
+		if i <= 0 || strings.ContainsAny(rest[:i], "+#") || i == len(rest)-1 {
+			return "share-syntax"
+		}
+		f = rest[i+1:]
+	}
+	if c := c06FilterCause(f); c != "" {
+		return c
+	}
+	return "other"
+}
+
 type c06Verdict struct {
 	ok     bool
 	reason string // slug when !ok
 	propID byte   // for duplicate / not-allowed reasons
 	ptype  int    // packet type named by a not-allowed reason (0 = will properties)
+	detail string // for invalid-topic-filter: the cause
 	p      *refmqtt.Packet
 	n      int
 }
@@ -366,20 +398,107 @@ func c06Ref(in []byte, version byte) c06Verdict {
 	case refmqtt.SUBSCRIBE:
 		for _, s := range p.Subs {
 			if (version == 5 && !c06ValidShared(s.Filter)) || (version != 5 && !refmqtt.ValidTopicFilter(s.Filter)) {
-				v.reason = "invalid-topic-filter"
+				v.reason, v.detail = "invalid-topic-filter", c06FilterDetail(s.Filter)
 				return v
 			}
 		}
 	case refmqtt.UNSUBSCRIBE:
 		for _, f := range p.Filters {
 			if !refmqtt.ValidTopicFilter(f) {
-				v.reason = "invalid-topic-filter"
+				v.reason, v.detail = "invalid-topic-filter", c06FilterDetail(f)
 				return v
 			}
 		}
 	}
 	v.ok = true
 	return v
+}
+
+// c06ExplainReject: why gmqtt may legitimately (or for an already separately reported
+// reason) reject a packet the reference's syntax check accepts.
+func c06ExplainReject(p *refmqtt.Packet) string {
+	ctl := func(s string) bool {
+		for _, r := range s {
+			if r <= 0x1f || (r >= 0x7f && r <= 0x9f) {
+				return true
+			}
+		}
+		return false
+	}
+	ufffd := func(s string) bool { return strings.ContainsRune(s, utf8.RuneError) }
+	strs := []string{p.ClientID, p.WillTopic, p.Username, p.Topic}
+	for _, s := range p.Subs {
+		strs = append(strs, s.Filter)
+	}
+	strs = append(strs, p.Filters...)
+	propErr := ""
+	for _, pr := range []*refmqtt.Props{p.Props, p.WillProps} {
+		if pr == nil {
+			continue
+		}
+		for _, sp := range []*string{pr.ContentType, pr.ResponseTopic, pr.AssignedClientID, pr.AuthMethod, pr.ResponseInfo, pr.ServerReference, pr.ReasonString} {
+			if sp != nil {
+				strs = append(strs, *sp)
+			}
+		}
+		for _, kv := range pr.User {
+			strs = append(strs, kv.K, kv.V)
+		}
+		for _, bp := range []*byte{pr.PayloadFormat, pr.RequestProblemInfo, pr.RequestResponseInfo, pr.MaxQoS, pr.RetainAvailable, pr.WildcardSubAvail, pr.SubIDAvail, pr.SharedSubAvail} {
+			if bp != nil && *bp > 1 {
+				propErr = "property-value-protocol-error"
+			}
+		}
+		if (pr.ReceiveMax != nil && *pr.ReceiveMax == 0) || (pr.MaxPacketSize != nil && *pr.MaxPacketSize == 0) || (pr.TopicAlias != nil && *pr.TopicAlias == 0) {
+			propErr = "property-value-protocol-error"
+		}
+		if (pr.HasAuthData || pr.AuthData != nil) && pr.AuthMethod == nil {
+			propErr = "property-value-protocol-error"
+		}
+		if pr.ResponseTopic != nil && strings.ContainsAny(*pr.ResponseTopic, "+#") {
+			propErr = "property-value-protocol-error"
+		}
+		if p.Type == refmqtt.PUBLISH && len(pr.SubIDs) > 0 {
+			propErr = "server-role:subscription-identifier-in-publish"
+		}
+		if (pr.HasAuthData || pr.AuthData != nil) && !utf8.Valid(pr.AuthData) {
+			propErr = "reported-separately:auth-data-not-utf8"
+		}
+		if (pr.HasAuthData || pr.AuthData != nil) && ctl(string(pr.AuthData)) && propErr == "" {
+			propErr = "reported-separately:auth-data-not-utf8"
+		}
+	}
+	for _, s := range strs {
+		if ctl(s) {
+			return "permitted:control-character-in-string"
+		}
+	}
+	for _, s := range strs {
+		if ufffd(s) {
+			return "reported-separately:U+FFFD-in-string"
+		}
+	}
+	if propErr != "" {
+		return propErr
+	}
+	switch p.Type {
+	case refmqtt.CONNECT:
+		if p.HasPassword && (!refmqtt.ValidUTF8(p.Password) || ctl(string(p.Password))) {
+			return "reported-separately:password-not-utf8"
+		}
+		if p.Version != 5 && p.ClientID == "" && !p.CleanStart {
+			return "permitted:v3-empty-client-id-without-clean-session"
+		}
+	case refmqtt.SUBACK:
+		if len(p.Codes) == 0 {
+			return "correct:suback-without-codes"
+		}
+	case refmqtt.UNSUBACK:
+		if p.Version == 5 && len(p.Codes) == 0 {
+			return "correct:unsuback-without-codes"
+		}
+	}
+	return ""
 }
 
 // ---------------------------------------------------------------- the byte-level oracles
@@ -391,6 +510,9 @@ func (k *c06) checkBytes(phase string, in []byte, version byte, extra map[string
 	res := k.d1.decode(in, version)
 	k.count("evaluations", 1)
 	cas := c06BytesCase(phase, in, version, extra)
+	if lz := k.lazyExtra; lz != nil {
+		cas = func() any { return c06BytesCase(phase, append([]byte{}, in...), version, lz())() }
+	}
 	if k.verb {
 		fmt.Printf("  decode(%s, %s) -> pkt=%v err=%v consumed=%d\n", c06Hex(in), c06V(version), res.pkt, res.err, res.consumed)
 	}
@@ -434,7 +556,17 @@ func (k *c06) checkBytes(phase string, in []byte, version byte, extra map[string
 	if res.pkt == nil {
 		if compareRef {
 			if v := c06Ref(in, version); v.ok {
-				k.count("d_rej:"+c06TypeName(in[0]>>4), 1)
+				why := c06ExplainReject(v.p)
+				if why == "" {
+					why = "unexplained:" + c06TypeName(in[0]>>4)
+					if k.unexplained == nil {
+						k.unexplained = map[string]string{}
+					}
+					if _, ok := k.unexplained[why]; !ok {
+						k.unexplained[why] = fmt.Sprintf("%s under %s (%v)", hex.EncodeToString(in), c06V(version), res.err)
+					}
+				}
+				k.count("d_rej:"+why, 1)
 				k.count("disagree_gmqtt_rejects_ref_accepts", 1)
 			}
 		}
@@ -442,12 +574,11 @@ func (k *c06) checkBytes(phase string, in []byte, version byte, extra map[string
 	}
 	k.count("accepted", 1)
 	tag := c06PktTag(res.pkt, version)
-	if tb := int(packets.TotalBytes(res.pkt)); tb != res.consumed {
+	if minimal := 1 + len(refmqtt.AppendVBI(nil, uint32(total-hdr))); hdr != minimal {
+		// legal in 3.1.1, forbidden by [MQTT-1.5.5-1] in 5; TotalBytes assumes the minimal form
+		k.count("d_acc:non-minimal-remaining-length", 1)
+	} else if tb := int(packets.TotalBytes(res.pkt)); tb != res.consumed {
 		k.violate("total-bytes", tag+":after-decode", cas, fmt.Sprint(res.consumed), fmt.Sprint(tb))
-	}
-	desc := ""
-	if compareRef || k.verb {
-		desc = res.pkt.String()
 	}
 	// reference verdict first: Pack below rewrites the FixHeader of res.pkt
 	var ver c06Verdict
@@ -461,9 +592,13 @@ func (k *c06) checkBytes(phase string, in []byte, version byte, extra map[string
 		k.count("disagree_gmqtt_accepts_ref_rejects", 1)
 		k.count("d_acc:"+ver.reason, 1)
 		tn := c06TypeName(in[0] >> 4)
-		if version == 4 || version == 5 || in[0]>>4 == refmqtt.CONNECT {
+		eff := version
+		if x, ok := res.pkt.(*packets.Connect); ok {
+			eff = x.Version
+		}
+		if eff == 4 || eff == 5 {
 			exp := "error: " + ver.reason
-			obs := "accepted " + desc
+			obs := "accepted " + res.pkt.String()
 			switch ver.reason {
 			case "invalid-utf8-string":
 				k.violate("rejects-forbidden", "invalid-utf8-accepted:"+tn, cas, exp, obs)
@@ -482,6 +617,8 @@ func (k *c06) checkBytes(phase string, in []byte, version byte, extra map[string
 				k.violate("rejects-forbidden", "reserved-flags-accepted:"+tn, cas, exp, obs)
 			case "publish-topic-wildcard":
 				k.violate("rejects-forbidden", "publish-topic-wildcard-accepted", cas, exp, obs)
+			case "invalid-topic-filter":
+				k.violate("rejects-forbidden", "invalid-topic-filter-accepted:"+tn+":"+ver.detail, cas, exp+" ("+ver.detail+")", obs)
 			}
 		}
 	}
@@ -522,5 +659,1601 @@ func (k *c06) selfRoundTrip(phase string, in []byte, version byte, p packets.Pac
 	}
 	if d := c06Diff(reflect.ValueOf(p), reflect.ValueOf(r2.pkt), ""); d != "" {
 		k.violate("reencode-roundtrip", tag+":"+d, cas, p.String(), r2.pkt.String()+" (from "+c06Hex(b)+")")
+	}
+}
+
+// ---------------------------------------------------------------- gmqtt <-> reference values
+
+func c06NB(b []byte) []byte {
+	if len(b) == 0 {
+		return nil
+	}
+	return append([]byte{}, b...)
+}
+
+func c06NormProps(p *refmqtt.Props) *refmqtt.Props {
+	if p == nil {
+		return nil
+	}
+	q := *p
+	q.HasCorrelationData = p.HasCorrelationData || p.CorrelationData != nil
+	q.CorrelationData = c06NB(p.CorrelationData)
+	q.HasAuthData = p.HasAuthData || p.AuthData != nil
+	q.AuthData = c06NB(p.AuthData)
+	if len(q.SubIDs) == 0 {
+		q.SubIDs = nil
+	}
+	if len(q.User) == 0 {
+		q.User = nil
+	}
+	if reflect.DeepEqual(q, refmqtt.Props{}) {
+		return nil
+	}
+	return &q
+}
+
+// c06Norm: canonical form of a reference packet for comparison (absent == empty for
+// byte strings and property sets, protocol name/level defaults filled in).
+func c06Norm(p *refmqtt.Packet) *refmqtt.Packet {
+	q := *p
+	q.Flags, q.RawFlags = 0, false
+	if q.Type == refmqtt.CONNECT {
+		if q.ProtoName == "" {
+			q.ProtoName = "MQTT"
+			if q.Version == 3 {
+				q.ProtoName = "MQIsdp"
+			}
+		}
+		if q.ProtoLevel == 0 {
+			q.ProtoLevel = q.Version
+		}
+	}
+	q.WillPayload = c06NB(q.WillPayload)
+	q.Password = c06NB(q.Password)
+	q.Payload = c06NB(q.Payload)
+	q.Codes = c06NB(q.Codes)
+	if len(q.Subs) == 0 {
+		q.Subs = nil
+	}
+	if len(q.Filters) == 0 {
+		q.Filters = nil
+	}
+	q.Props = c06NormProps(q.Props)
+	q.WillProps = c06NormProps(q.WillProps)
+	return &q
+}
+
+func c06DiffRef(a, b *refmqtt.Packet) string {
+	return c06Diff(reflect.ValueOf(c06Norm(a)), reflect.ValueOf(c06Norm(b)), "")
+}
+
+func c06PropsFrom(p *packets.Properties) *refmqtt.Props {
+	if p == nil {
+		return nil
+	}
+	str := func(b []byte) *string {
+		if b == nil {
+			return nil
+		}
+		s := string(b)
+		return &s
+	}
+	q := &refmqtt.Props{
+		PayloadFormat: p.PayloadFormat, MessageExpiry: p.MessageExpiry, ContentType: str(p.ContentType),
+		ResponseTopic: str(p.ResponseTopic), CorrelationData: p.CorrelationData, HasCorrelationData: p.CorrelationData != nil,
+		SubIDs: append([]uint32(nil), p.SubscriptionIdentifier...), SessionExpiry: p.SessionExpiryInterval,
+		AssignedClientID: str(p.AssignedClientID), ServerKeepAlive: p.ServerKeepAlive, AuthMethod: str(p.AuthMethod),
+		AuthData: p.AuthData, HasAuthData: p.AuthData != nil, RequestProblemInfo: p.RequestProblemInfo,
+		WillDelay: p.WillDelayInterval, RequestResponseInfo: p.RequestResponseInfo, ResponseInfo: str(p.ResponseInfo),
+		ServerReference: str(p.ServerReference), ReasonString: str(p.ReasonString), ReceiveMax: p.ReceiveMaximum,
+		TopicAliasMax: p.TopicAliasMaximum, TopicAlias: p.TopicAlias, MaxQoS: p.MaximumQoS, RetainAvailable: p.RetainAvailable,
+		MaxPacketSize: p.MaximumPacketSize, WildcardSubAvail: p.WildcardSubAvailable, SubIDAvail: p.SubIDAvailable,
+		SharedSubAvail: p.SharedSubAvailable,
+	}
+	for _, u := range p.User {
+		q.User = append(q.User, refmqtt.KV{K: string(u.K), V: string(u.V)})
+	}
+	return q
+}
+
+func c06BS(s string) []byte { return append(make([]byte, 0, len(s)), s...) }
+
+func c06PropsTo(p *refmqtt.Props) *packets.Properties {
+	if p == nil {
+		return nil
+	}
+	str := func(s *string) []byte {
+		if s == nil {
+			return nil
+		}
+		return c06BS(*s)
+	}
+	bin := func(has bool, b []byte) []byte {
+		if !has && b == nil {
+			return nil
+		}
+		return append(make([]byte, 0, len(b)), b...)
+	}
+	q := &packets.Properties{
+		PayloadFormat: p.PayloadFormat, MessageExpiry: p.MessageExpiry, ContentType: str(p.ContentType),
+		ResponseTopic: str(p.ResponseTopic), CorrelationData: bin(p.HasCorrelationData, p.CorrelationData),
+		SubscriptionIdentifier: append([]uint32(nil), p.SubIDs...), SessionExpiryInterval: p.SessionExpiry,
+		AssignedClientID: str(p.AssignedClientID), ServerKeepAlive: p.ServerKeepAlive, AuthMethod: str(p.AuthMethod),
+		AuthData: bin(p.HasAuthData, p.AuthData), RequestProblemInfo: p.RequestProblemInfo, WillDelayInterval: p.WillDelay,
+		RequestResponseInfo: p.RequestResponseInfo, ResponseInfo: str(p.ResponseInfo), ServerReference: str(p.ServerReference),
+		ReasonString: str(p.ReasonString), ReceiveMaximum: p.ReceiveMax, TopicAliasMaximum: p.TopicAliasMax,
+		TopicAlias: p.TopicAlias, MaximumQoS: p.MaxQoS, RetainAvailable: p.RetainAvailable, MaximumPacketSize: p.MaxPacketSize,
+		WildcardSubAvailable: p.WildcardSubAvail, SubIDAvailable: p.SubIDAvail, SharedSubAvailable: p.SharedSubAvail,
+	}
+	for _, u := range p.User {
+		q.User = append(q.User, packets.UserProperty{K: c06BS(u.K), V: c06BS(u.V)})
+	}
+	return q
+}
+
+// c06FromGmqtt converts a gmqtt packet to a reference value; v is the reader version
+// (used for the types that carry no Version field).
+func c06FromGmqtt(p packets.Packet, v byte) *refmqtt.Packet {
+	switch x := p.(type) {
+	case *packets.Connect:
+		q := &refmqtt.Packet{Type: refmqtt.CONNECT, Version: x.Version, ProtoName: string(x.ProtocolName), ProtoLevel: x.ProtocolLevel,
+			CleanStart: x.CleanStart, KeepAlive: x.KeepAlive, ClientID: string(x.ClientID), WillFlag: x.WillFlag, WillQoS: x.WillQos,
+			WillRetain: x.WillRetain, WillTopic: string(x.WillTopic), WillPayload: x.WillMsg, HasUsername: x.UsernameFlag,
+			HasPassword: x.PasswordFlag, Username: string(x.Username), Password: x.Password, Props: c06PropsFrom(x.Properties)}
+		if x.WillFlag {
+			q.WillProps = c06PropsFrom(x.WillProperties)
+		}
+		return q
+	case *packets.Connack:
+		return &refmqtt.Packet{Type: refmqtt.CONNACK, Version: x.Version, SessionPresent: x.SessionPresent, Code: x.Code, Props: c06PropsFrom(x.Properties)}
+	case *packets.Publish:
+		return &refmqtt.Packet{Type: refmqtt.PUBLISH, Version: x.Version, Dup: x.Dup, QoS: x.Qos, Retain: x.Retain, Topic: string(x.TopicName),
+			PacketID: x.PacketID, Payload: x.Payload, Props: c06PropsFrom(x.Properties)}
+	case *packets.Puback:
+		return &refmqtt.Packet{Type: refmqtt.PUBACK, Version: x.Version, PacketID: x.PacketID, Code: x.Code, Props: c06PropsFrom(x.Properties)}
+	case *packets.Pubrec:
+		return &refmqtt.Packet{Type: refmqtt.PUBREC, Version: x.Version, PacketID: x.PacketID, Code: x.Code, Props: c06PropsFrom(x.Properties)}
+	case *packets.Pubrel:
+		return &refmqtt.Packet{Type: refmqtt.PUBREL, Version: v, PacketID: x.PacketID, Code: x.Code, Props: c06PropsFrom(x.Properties)}
+	case *packets.Pubcomp:
+		return &refmqtt.Packet{Type: refmqtt.PUBCOMP, Version: x.Version, PacketID: x.PacketID, Code: x.Code, Props: c06PropsFrom(x.Properties)}
+	case *packets.Subscribe:
+		q := &refmqtt.Packet{Type: refmqtt.SUBSCRIBE, Version: x.Version, PacketID: x.PacketID, Props: c06PropsFrom(x.Properties)}
+		for _, t := range x.Topics {
+			q.Subs = append(q.Subs, refmqtt.Sub{Filter: t.Name, QoS: t.Qos, NoLocal: t.NoLocal, RAP: t.RetainAsPublished, RH: t.RetainHandling})
+		}
+		return q
+	case *packets.Suback:
+		return &refmqtt.Packet{Type: refmqtt.SUBACK, Version: x.Version, PacketID: x.PacketID, Codes: x.Payload, Props: c06PropsFrom(x.Properties)}
+	case *packets.Unsubscribe:
+		return &refmqtt.Packet{Type: refmqtt.UNSUBSCRIBE, Version: x.Version, PacketID: x.PacketID, Filters: x.Topics, Props: c06PropsFrom(x.Properties)}
+	case *packets.Unsuback:
+		return &refmqtt.Packet{Type: refmqtt.UNSUBACK, Version: x.Version, PacketID: x.PacketID, Codes: x.Payload, Props: c06PropsFrom(x.Properties)}
+	case *packets.Pingreq:
+		return &refmqtt.Packet{Type: refmqtt.PINGREQ, Version: v}
+	case *packets.Pingresp:
+		return &refmqtt.Packet{Type: refmqtt.PINGRESP, Version: v}
+	case *packets.Disconnect:
+		return &refmqtt.Packet{Type: refmqtt.DISCONNECT, Version: x.Version, Code: x.Code, Props: c06PropsFrom(x.Properties)}
+	case *packets.Auth:
+		return &refmqtt.Packet{Type: refmqtt.AUTH, Version: v, Code: x.Code, Props: c06PropsFrom(x.Properties)}
+	}
+	return nil
+}
+
+// c06ToGmqtt builds the gmqtt struct for a reference value directly (no decoder involved).
+func c06ToGmqtt(p *refmqtt.Packet) packets.Packet {
+	n := c06Norm(p)
+	v := p.Version
+	v5 := v == 5
+	always := func(pp *refmqtt.Props) *packets.Properties { // hosts whose property length is mandatory
+		if !v5 {
+			return nil
+		}
+		if pp == nil {
+			return &packets.Properties{}
+		}
+		return c06PropsTo(pp)
+	}
+	optional := func(pp *refmqtt.Props) *packets.Properties { // ack family: nil keeps the short form
+		if !v5 || pp == nil {
+			return nil
+		}
+		return c06PropsTo(pp)
+	}
+	switch p.Type {
+	case refmqtt.CONNECT:
+		x := &packets.Connect{Version: v, ProtocolLevel: n.ProtoLevel, ProtocolName: c06BS(n.ProtoName), UsernameFlag: p.HasUsername,
+			PasswordFlag: p.HasPassword, WillRetain: p.WillRetain, WillQos: p.WillQoS, WillFlag: p.WillFlag, CleanStart: p.CleanStart,
+			KeepAlive: p.KeepAlive, ClientID: c06BS(p.ClientID), Properties: always(p.Props)}
+		if p.WillFlag {
+			x.WillTopic, x.WillMsg = c06BS(p.WillTopic), append([]byte{}, p.WillPayload...)
+			x.WillProperties = always(p.WillProps)
+		}
+		if p.HasUsername {
+			x.Username = c06BS(p.Username)
+		}
+		if p.HasPassword {
+			x.Password = append([]byte{}, p.Password...)
+		}
+		return x
+	case refmqtt.CONNACK:
+		return &packets.Connack{Version: v, Code: p.Code, SessionPresent: p.SessionPresent, Properties: always(p.Props)}
+	case refmqtt.PUBLISH:
+		return &packets.Publish{Version: v, Dup: p.Dup, Qos: p.QoS, Retain: p.Retain, TopicName: c06BS(p.Topic), PacketID: p.PacketID,
+			Payload: append([]byte{}, p.Payload...), Properties: always(p.Props)}
+	case refmqtt.PUBACK:
+		return &packets.Puback{Version: v, PacketID: p.PacketID, Code: p.Code, Properties: optional(p.Props)}
+	case refmqtt.PUBREC:
+		return &packets.Pubrec{Version: v, PacketID: p.PacketID, Code: p.Code, Properties: optional(p.Props)}
+	case refmqtt.PUBREL:
+		return &packets.Pubrel{PacketID: p.PacketID, Code: p.Code, Properties: optional(p.Props)}
+	case refmqtt.PUBCOMP:
+		return &packets.Pubcomp{Version: v, PacketID: p.PacketID, Code: p.Code, Properties: optional(p.Props)}
+	case refmqtt.SUBSCRIBE:
+		x := &packets.Subscribe{Version: v, PacketID: p.PacketID, Properties: always(p.Props)}
+		for _, s := range p.Subs {
+			x.Topics = append(x.Topics, packets.Topic{Name: s.Filter, SubOptions: packets.SubOptions{Qos: s.QoS, RetainHandling: s.RH, NoLocal: s.NoLocal, RetainAsPublished: s.RAP}})
+		}
+		return x
+	case refmqtt.SUBACK:
+		return &packets.Suback{Version: v, PacketID: p.PacketID, Payload: append([]byte{}, p.Codes...), Properties: always(p.Props)}
+	case refmqtt.UNSUBSCRIBE:
+		return &packets.Unsubscribe{Version: v, PacketID: p.PacketID, Topics: append([]string{}, p.Filters...), Properties: always(p.Props)}
+	case refmqtt.UNSUBACK:
+		return &packets.Unsuback{Version: v, PacketID: p.PacketID, Payload: append([]byte{}, p.Codes...), Properties: always(p.Props)}
+	case refmqtt.PINGREQ:
+		return &packets.Pingreq{}
+	case refmqtt.PINGRESP:
+		return &packets.Pingresp{}
+	case refmqtt.DISCONNECT:
+		return &packets.Disconnect{Version: v, Code: p.Code, Properties: optional(p.Props)}
+	case refmqtt.AUTH:
+		return &packets.Auth{Code: p.Code, Properties: optional(p.Props)}
+	}
+	return nil
+}
+
+// ---------------------------------------------------------------- corpus of well-formed values
+
+type c06Case struct {
+	P        *refmqtt.Packet
+	label    string // the shape that is varied, without the version
+	roleOnly bool   // server-to-client only shape that gmqtt's (server-side) decoder may reject
+	big      bool   // excluded from the mutation closure
+}
+
+type c06PV struct {
+	label string
+	role  bool
+	set   func(p *refmqtt.Props)
+}
+
+var c06Long = strings.Repeat("x", 130)
+
+func c06StrLabel(s string) string {
+	switch {
+	case s == "":
+		return "empty"
+	case len(s) >= 100:
+		return "long"
+	case !utf8.ValidString(s) || strings.ContainsRune(s, 0):
+		return "nonutf8"
+	}
+	for i := 0; i < len(s); i++ {
+		if s[i] >= 0x80 {
+			return "2byte-utf8"
+		}
+	}
+	return "ascii"
+}
+
+func c06PVu32(name string, vals []uint32, set func(p *refmqtt.Props, v *uint32)) []c06PV {
+	var out []c06PV
+	for _, v := range vals {
+		v := v
+		out = append(out, c06PV{label: fmt.Sprintf("prop-%s=%d", name, v), set: func(p *refmqtt.Props) { x := v; set(p, &x) }})
+	}
+	return out
+}
+func c06PVu16(name string, vals []uint16, set func(p *refmqtt.Props, v *uint16)) []c06PV {
+	var out []c06PV
+	for _, v := range vals {
+		v := v
+		out = append(out, c06PV{label: fmt.Sprintf("prop-%s=%d", name, v), set: func(p *refmqtt.Props) { x := v; set(p, &x) }})
+	}
+	return out
+}
+func c06PVb(name string, vals []byte, set func(p *refmqtt.Props, v *byte)) []c06PV {
+	var out []c06PV
+	for _, v := range vals {
+		v := v
+		out = append(out, c06PV{label: fmt.Sprintf("prop-%s=%d", name, v), set: func(p *refmqtt.Props) { x := v; set(p, &x) }})
+	}
+	return out
+}
+func c06PVs(name string, vals []string, set func(p *refmqtt.Props, v *string)) []c06PV {
+	var out []c06PV
+	for _, v := range vals {
+		v := v
+		out = append(out, c06PV{label: fmt.Sprintf("prop-%s=%s", name, c06StrLabel(v)), set: func(p *refmqtt.Props) { x := v; set(p, &x) }})
+	}
+	return out
+}
+
+var c06Strs = []string{"", "a", "\xc3\xa9", c06Long}
+var c06Bins = [][]byte{{}, []byte("d"), {0x00, 0xff, 0x80}, bytes.Repeat([]byte{'z'}, 130)}
+
+func c06UserPVs() []c06PV {
+	mk := func(label string, kv ...refmqtt.KV) c06PV {
+		return c06PV{label: "prop-User=" + label, set: func(p *refmqtt.Props) { p.User = append(p.User, kv...) }}
+	}
+	return []c06PV{
+		mk("empty-pair", refmqtt.KV{}),
+		mk("pair", refmqtt.KV{K: "k", V: "v"}),
+		mk("utf8-key-long-value", refmqtt.KV{K: "\xc3\xa9", V: c06Long}),
+		mk("same-key-twice", refmqtt.KV{K: "k", V: "v"}, refmqtt.KV{K: "k", V: "w"}),
+	}
+}
+
+func c06AuthPVs() []c06PV {
+	out := c06PVs("AuthMethod", c06Strs, func(p *refmqtt.Props, v *string) { p.AuthMethod = v })
+	for _, b := range c06Bins {
+		b := b
+		out = append(out, c06PV{label: "prop-AuthData=" + c06StrLabel(string(b)), set: func(p *refmqtt.Props) {
+			m := "m"
+			p.AuthMethod = &m
+			p.AuthData, p.HasAuthData = append([]byte{}, b...), true
+		}})
+	}
+	return out
+}
+
+func c06CorrPVs() []c06PV {
+	var out []c06PV
+	for _, b := range c06Bins {
+		b := b
+		out = append(out, c06PV{label: "prop-CorrelationData=" + c06StrLabel(string(b)), set: func(p *refmqtt.Props) {
+			p.CorrelationData, p.HasCorrelationData = append([]byte{}, b...), true
+		}})
+	}
+	return out
+}
+
+func c06Cat(l ...[]c06PV) []c06PV {
+	var out []c06PV
+	for _, x := range l {
+		out = append(out, x...)
+	}
+	return out
+}
+
+const c06Max32 = 0xFFFFFFFF
+
+func c06HostPVs(host string) []c06PV {
+	sessExp := c06PVu32("SessionExpiry", []uint32{0, 10, c06Max32}, func(p *refmqtt.Props, v *uint32) { p.SessionExpiry = v })
+	recvMax := c06PVu16("ReceiveMaximum", []uint16{1, 10, 65535}, func(p *refmqtt.Props, v *uint16) { p.ReceiveMax = v })
+	maxPkt := c06PVu32("MaximumPacketSize", []uint32{1, 1024, c06Max32}, func(p *refmqtt.Props, v *uint32) { p.MaxPacketSize = v })
+	aliasMax := c06PVu16("TopicAliasMaximum", []uint16{0, 10, 65535}, func(p *refmqtt.Props, v *uint16) { p.TopicAliasMax = v })
+	reason := c06PVs("ReasonString", c06Strs, func(p *refmqtt.Props, v *string) { p.ReasonString = v })
+	srvRef := c06PVs("ServerReference", c06Strs, func(p *refmqtt.Props, v *string) { p.ServerReference = v })
+	payFmt := c06PVb("PayloadFormat", []byte{0, 1}, func(p *refmqtt.Props, v *byte) { p.PayloadFormat = v })
+	msgExp := c06PVu32("MessageExpiry", []uint32{0, 60, c06Max32}, func(p *refmqtt.Props, v *uint32) { p.MessageExpiry = v })
+	ctype := c06PVs("ContentType", c06Strs, func(p *refmqtt.Props, v *string) { p.ContentType = v })
+	rtopic := c06PVs("ResponseTopic", []string{"a", "r/t", "\xc3\xa9", c06Long}, func(p *refmqtt.Props, v *string) { p.ResponseTopic = v })
+	switch host {
+	case "connect":
+		return c06Cat(sessExp, recvMax, maxPkt, aliasMax,
+			c06PVb("RequestResponseInfo", []byte{0, 1}, func(p *refmqtt.Props, v *byte) { p.RequestResponseInfo = v }),
+			c06PVb("RequestProblemInfo", []byte{0, 1}, func(p *refmqtt.Props, v *byte) { p.RequestProblemInfo = v }),
+			c06UserPVs(), c06AuthPVs())
+	case "will":
+		return c06Cat(c06PVu32("WillDelay", []uint32{0, 5, c06Max32}, func(p *refmqtt.Props, v *uint32) { p.WillDelay = v }),
+			payFmt, msgExp, ctype, rtopic, c06CorrPVs(), c06UserPVs())
+	case "connack":
+		return c06Cat(sessExp, recvMax,
+			c06PVb("MaximumQoS", []byte{0, 1}, func(p *refmqtt.Props, v *byte) { p.MaxQoS = v }),
+			c06PVb("RetainAvailable", []byte{0, 1}, func(p *refmqtt.Props, v *byte) { p.RetainAvailable = v }),
+			maxPkt,
+			c06PVs("AssignedClientID", c06Strs, func(p *refmqtt.Props, v *string) { p.AssignedClientID = v }),
+			aliasMax, reason, c06UserPVs(),
+			c06PVb("WildcardSubAvailable", []byte{0, 1}, func(p *refmqtt.Props, v *byte) { p.WildcardSubAvail = v }),
+			c06PVb("SubIDAvailable", []byte{0, 1}, func(p *refmqtt.Props, v *byte) { p.SubIDAvail = v }),
+			c06PVb("SharedSubAvailable", []byte{0, 1}, func(p *refmqtt.Props, v *byte) { p.SharedSubAvail = v }),
+			c06PVu16("ServerKeepAlive", []uint16{0, 10, 65535}, func(p *refmqtt.Props, v *uint16) { p.ServerKeepAlive = v }),
+			c06PVs("ResponseInfo", c06Strs, func(p *refmqtt.Props, v *string) { p.ResponseInfo = v }),
+			srvRef, c06AuthPVs())
+	case "publish":
+		out := c06Cat(payFmt, msgExp,
+			c06PVu16("TopicAlias", []uint16{1, 10, 65535}, func(p *refmqtt.Props, v *uint16) { p.TopicAlias = v }),
+			rtopic, c06CorrPVs(), c06UserPVs(), ctype)
+		for _, ids := range [][]uint32{{1}, {127}, {128}, {268435455}, {1, 2}} {
+			ids := ids
+			out = append(out, c06PV{label: fmt.Sprintf("prop-SubscriptionIdentifier=%v", ids), role: true, set: func(p *refmqtt.Props) { p.SubIDs = append([]uint32{}, ids...) }})
+		}
+		return out
+	case "ack":
+		return c06Cat(reason, c06UserPVs())
+	case "subscribe":
+		var out []c06PV
+		for _, id := range []uint32{1, 127, 128, 16383, 16384, 2097151, 2097152, 268435455} {
+			id := id
+			out = append(out, c06PV{label: fmt.Sprintf("prop-SubscriptionIdentifier=%d", id), set: func(p *refmqtt.Props) { p.SubIDs = []uint32{id} }})
+		}
+		return c06Cat(out, c06UserPVs())
+	case "unsubscribe":
+		return c06UserPVs()
+	case "disconnect":
+		return c06Cat(sessExp, reason, c06UserPVs(), srvRef)
+	case "auth":
+		return c06Cat(c06AuthPVs(), reason, c06UserPVs())
+	}
+	return nil
+}
+
+// c06AllProps applies one variant of every distinct property of the host (the second
+// value of each where there is one), skipping server-role-only ones.
+func c06AllProps(pvs []c06PV, withRole bool) *refmqtt.Props {
+	p := &refmqtt.Props{}
+	byName := map[string][]c06PV{}
+	var order []string
+	for _, pv := range pvs {
+		n := pv.label[:strings.IndexByte(pv.label, '=')]
+		if _, ok := byName[n]; !ok {
+			order = append(order, n)
+		}
+		byName[n] = append(byName[n], pv)
+	}
+	for _, n := range order {
+		l := byName[n]
+		pv := l[0]
+		if len(l) > 1 {
+			pv = l[1]
+		}
+		if pv.role && !withRole {
+			continue
+		}
+		if n == "prop-AuthMethod" {
+			continue // AuthData variants set the method as well
+		}
+		pv.set(p)
+	}
+	return p
+}
+
+func c06Corpus(thorough bool) []c06Case {
+	var out []c06Case
+	seen := map[string]bool{}
+	add := func(label string, role, big bool, p *refmqtt.Packet) {
+		key := string(refmqtt.Encode(p)) + string([]byte{p.Version})
+		if seen[key] {
+			return
+		}
+		seen[key] = true
+		out = append(out, c06Case{P: p, label: label, roleOnly: role, big: big})
+	}
+	withProps := func(host string, base func() *refmqtt.Packet, slot func(p *refmqtt.Packet) **refmqtt.Props) {
+		pvs := c06HostPVs(host)
+		for _, pv := range pvs {
+			p := base()
+			pr := &refmqtt.Props{}
+			pv.set(pr)
+			*slot(p) = pr
+			add(pv.label, pv.role, false, p)
+		}
+		p := base()
+		*slot(p) = c06AllProps(pvs, false)
+		add("all-properties", false, false, p)
+		hasRole := false
+		for _, pv := range pvs {
+			hasRole = hasRole || pv.role
+		}
+		if hasRole {
+			p := base()
+			*slot(p) = c06AllProps(pvs, true)
+			add("all-properties-with-subscription-identifier", true, false, p)
+		}
+		p = base()
+		*slot(p) = &refmqtt.Props{}
+		add("explicit-empty-properties", false, false, p)
+	}
+	mainProps := func(p *refmqtt.Packet) **refmqtt.Props { return &p.Props }
+
+	for _, v := range []byte{3, 4, 5} {
+		v := v
+		v5 := v == 5
+		// ---- CONNECT
+		conn := func() *refmqtt.Packet {
+			return &refmqtt.Packet{Type: refmqtt.CONNECT, Version: v, CleanStart: true, KeepAlive: 60, ClientID: "c"}
+		}
+		add("base", false, false, conn())
+		for _, s := range c06Strs {
+			p := conn()
+			p.ClientID = s
+			add("client-id="+c06StrLabel(s), false, false, p)
+		}
+		p := conn()
+		p.CleanStart = false
+		add("clean-start=0", false, false, p)
+		for _, ka := range []uint16{0, 1, 65535} {
+			p := conn()
+			p.KeepAlive = ka
+			add(fmt.Sprintf("keep-alive=%d", ka), false, false, p)
+		}
+		for _, s := range c06Strs {
+			p := conn()
+			p.HasUsername, p.Username = true, s
+			add("username="+c06StrLabel(s), false, false, p)
+		}
+		for _, b := range c06Bins {
+			p := conn()
+			p.HasUsername, p.Username, p.HasPassword, p.Password = true, "u", true, append([]byte{}, b...)
+			add("password="+c06StrLabel(string(b)), false, false, p)
+			if v5 {
+				p := conn()
+				p.HasPassword, p.Password = true, append([]byte{}, b...)
+				add("password-without-username="+c06StrLabel(string(b)), false, false, p)
+			}
+		}
+		will := func() *refmqtt.Packet {
+			p := conn()
+			p.WillFlag, p.WillTopic, p.WillPayload = true, "w/t", []byte("bye")
+			return p
+		}
+		for q := byte(0); q <= 2; q++ {
+			for _, r := range []bool{false, true} {
+				p := will()
+				p.WillQoS, p.WillRetain = q, r
+				add(fmt.Sprintf("will-qos=%d-retain=%v", q, r), false, false, p)
+			}
+		}
+		for _, s := range []string{"t", "\xc3\xa9", c06Long} {
+			p := will()
+			p.WillTopic = s
+			add("will-topic="+c06StrLabel(s), false, false, p)
+		}
+		for _, b := range c06Bins {
+			p := will()
+			p.WillPayload = append([]byte{}, b...)
+			add("will-payload="+c06StrLabel(string(b)), false, false, p)
+		}
+		every := func() *refmqtt.Packet {
+			p := will()
+			p.WillQoS, p.WillRetain, p.HasUsername, p.Username, p.HasPassword, p.Password = 2, true, true, "user", true, []byte("pass")
+			return p
+		}
+		add("will+username+password", false, false, every())
+		if v5 {
+			withProps("connect", conn, mainProps)
+			withProps("will", will, func(p *refmqtt.Packet) **refmqtt.Props { return &p.WillProps })
+			p := every()
+			p.Props = c06AllProps(c06HostPVs("connect"), false)
+			p.WillProps = c06AllProps(c06HostPVs("will"), false)
+			add("everything-set", false, false, p)
+		}
+		// ---- CONNACK
+		codes := []byte{0, 1, 5}
+		if v5 {
+			codes = []byte{0, 0x80, 0x87}
+		}
+		for _, sp := range []bool{false, true} {
+			for _, code := range codes {
+				add(fmt.Sprintf("session-present=%v-code=0x%02x", sp, code), false, false, &refmqtt.Packet{Type: refmqtt.CONNACK, Version: v, SessionPresent: sp, Code: code})
+			}
+		}
+		if v5 {
+			withProps("connack", func() *refmqtt.Packet { return &refmqtt.Packet{Type: refmqtt.CONNACK, Version: v} }, mainProps)
+		}
+		// ---- PUBLISH
+		pub := func() *refmqtt.Packet {
+			return &refmqtt.Packet{Type: refmqtt.PUBLISH, Version: v, Topic: "t", Payload: []byte("p")}
+		}
+		for q := byte(0); q <= 2; q++ {
+			for _, dup := range []bool{false, true} {
+				if dup && q == 0 {
+					continue
+				}
+				for _, ret := range []bool{false, true} {
+					p := pub()
+					p.QoS, p.Dup, p.Retain = q, dup, ret
+					if q > 0 {
+						p.PacketID = 7
+					}
+					add(fmt.Sprintf("qos=%d-dup=%v-retain=%v", q, dup, ret), false, false, p)
+				}
+			}
+		}
+		for _, t := range []string{"a/b", "\xc3\xa9", "$SYS/x", "/", "a//b", c06Long} {
+			p := pub()
+			p.Topic = t
+			add("topic="+c06StrLabel(t)+":"+c06Shape(t), false, false, p)
+		}
+		for _, id := range []uint16{1, 0x100, 65535} {
+			p := pub()
+			p.QoS, p.PacketID = 1, id
+			add(fmt.Sprintf("packet-id=%d", id), false, false, p)
+		}
+		for _, b := range c06Bins {
+			p := pub()
+			p.Payload = append([]byte{}, b...)
+			add("payload="+c06StrLabel(string(b)), false, false, p)
+		}
+		sizes := []int{127, 128, 16383, 16384}
+		if thorough {
+			sizes = append(sizes, 2097151, 2097152)
+		}
+		for _, rl := range sizes { // remaining length exactly at the VBI boundaries
+			p := pub()
+			over := 3
+			if v5 {
+				over = 4
+			}
+			p.Payload = bytes.Repeat([]byte{0x55}, rl-over)
+			add(fmt.Sprintf("remaining-length=%d", rl), false, true, p)
+		}
+		if v5 {
+			withProps("publish", pub, mainProps)
+			p := pub()
+			p.Topic = ""
+			a := uint16(3)
+			p.Props = &refmqtt.Props{TopicAlias: &a}
+			add("empty-topic-with-alias", false, false, p)
+			p = pub()
+			p.QoS, p.PacketID, p.Dup, p.Retain = 2, 65535, true, true
+			p.Props = c06AllProps(c06HostPVs("publish"), false)
+			add("everything-set", false, false, p)
+		}
+		// ---- PUBACK / PUBREC / PUBREL / PUBCOMP
+		for _, t := range []byte{refmqtt.PUBACK, refmqtt.PUBREC, refmqtt.PUBREL, refmqtt.PUBCOMP} {
+			t := t
+			for _, id := range []uint16{1, 65535} {
+				add(fmt.Sprintf("packet-id=%d", id), false, false, &refmqtt.Packet{Type: t, Version: v, PacketID: id})
+			}
+			if v5 {
+				fail := byte(0x80)
+				if t == refmqtt.PUBREL || t == refmqtt.PUBCOMP {
+					fail = 0x92
+				}
+				for _, code := range []byte{fail, 0x10} {
+					if code == 0x10 && (t == refmqtt.PUBREL || t == refmqtt.PUBCOMP) {
+						continue
+					}
+					code := code
+					add(fmt.Sprintf("code=0x%02x-no-property-length", code), false, false, &refmqtt.Packet{Type: t, Version: v, PacketID: 9, Code: code})
+					withProps("ack", func() *refmqtt.Packet { return &refmqtt.Packet{Type: t, Version: v, PacketID: 9, Code: code} }, mainProps)
+				}
+				withProps("ack", func() *refmqtt.Packet { return &refmqtt.Packet{Type: t, Version: v, PacketID: 9} }, mainProps)
+			}
+		}
+		// ---- SUBSCRIBE
+		sub := func(subs ...refmqtt.Sub) *refmqtt.Packet {
+			return &refmqtt.Packet{Type: refmqtt.SUBSCRIBE, Version: v, PacketID: 5, Subs: subs}
+		}
+		filters := []string{"a", "a/b", "+", "#", "a/+/b", "a/#", "+/+", "/", "\xc3\xa9", "$SYS/#", c06Long}
+		if v5 {
+			filters = append(filters, "$share/g/a", "$share/g/+/b", "$share/\xc3\xa9/#")
+		}
+		for _, f := range filters {
+			add("filter="+c06StrLabel(f)+":"+c06Shape(f), false, false, sub(refmqtt.Sub{Filter: f, QoS: 1}))
+		}
+		for q := byte(0); q <= 2; q++ {
+			if !v5 {
+				add(fmt.Sprintf("options-qos=%d", q), false, false, sub(refmqtt.Sub{Filter: "a", QoS: q}))
+				continue
+			}
+			for _, nl := range []bool{false, true} {
+				for _, rap := range []bool{false, true} {
+					for rh := byte(0); rh <= 2; rh++ {
+						add(fmt.Sprintf("options-qos=%d-nl=%v-rap=%v-rh=%d", q, nl, rap, rh), false, false, sub(refmqtt.Sub{Filter: "a", QoS: q, NoLocal: nl, RAP: rap, RH: rh}))
+					}
+				}
+			}
+		}
+		add("two-filters", false, false, sub(refmqtt.Sub{Filter: "a", QoS: 0}, refmqtt.Sub{Filter: "b/#", QoS: 2}))
+		add("three-filters", false, false, sub(refmqtt.Sub{Filter: "a", QoS: 2}, refmqtt.Sub{Filter: "+", QoS: 1}, refmqtt.Sub{Filter: "c/d", QoS: 0}))
+		p = sub(refmqtt.Sub{Filter: "a", QoS: 1})
+		p.PacketID = 65535
+		add("packet-id=65535", false, false, p)
+		if v5 {
+			withProps("subscribe", func() *refmqtt.Packet { return sub(refmqtt.Sub{Filter: "a", QoS: 1}) }, mainProps)
+		}
+		// ---- SUBACK
+		sa := [][]byte{{0}, {1}, {2}, {0x80}, {0, 1, 2, 0x80}}
+		if v5 {
+			sa = append(sa, []byte{0x83}, []byte{0x87, 0x9e, 0xa2})
+		}
+		for _, cs := range sa {
+			add(fmt.Sprintf("codes=%x", cs), false, false, &refmqtt.Packet{Type: refmqtt.SUBACK, Version: v, PacketID: 5, Codes: append([]byte{}, cs...)})
+		}
+		add("packet-id=65535", false, false, &refmqtt.Packet{Type: refmqtt.SUBACK, Version: v, PacketID: 65535, Codes: []byte{0}})
+		if v5 {
+			withProps("ack", func() *refmqtt.Packet {
+				return &refmqtt.Packet{Type: refmqtt.SUBACK, Version: v, PacketID: 5, Codes: []byte{1}}
+			}, mainProps)
+		}
+		// ---- UNSUBSCRIBE
+		for _, fs := range [][]string{{"a"}, {"a/#", "+"}, {"a", "b", "c/+/d"}, {"\xc3\xa9"}, {c06Long}, {"/"}} {
+			add(fmt.Sprintf("filters=%d:%s", len(fs), c06StrLabel(fs[0])), false, false, &refmqtt.Packet{Type: refmqtt.UNSUBSCRIBE, Version: v, PacketID: 6, Filters: append([]string{}, fs...)})
+		}
+		if v5 {
+			withProps("unsubscribe", func() *refmqtt.Packet {
+				return &refmqtt.Packet{Type: refmqtt.UNSUBSCRIBE, Version: v, PacketID: 6, Filters: []string{"a"}}
+			}, mainProps)
+		}
+		// ---- UNSUBACK
+		if v5 {
+			for _, cs := range [][]byte{{0}, {0x11}, {0, 0x11, 0x80}} {
+				add(fmt.Sprintf("codes=%x", cs), false, false, &refmqtt.Packet{Type: refmqtt.UNSUBACK, Version: v, PacketID: 6, Codes: append([]byte{}, cs...)})
+			}
+			withProps("ack", func() *refmqtt.Packet {
+				return &refmqtt.Packet{Type: refmqtt.UNSUBACK, Version: v, PacketID: 6, Codes: []byte{0}}
+			}, mainProps)
+		} else {
+			for _, id := range []uint16{1, 65535} {
+				add(fmt.Sprintf("packet-id=%d", id), false, false, &refmqtt.Packet{Type: refmqtt.UNSUBACK, Version: v, PacketID: id})
+			}
+		}
+		// ---- PINGREQ / PINGRESP / DISCONNECT / AUTH
+		add("base", false, false, &refmqtt.Packet{Type: refmqtt.PINGREQ, Version: v})
+		add("base", false, false, &refmqtt.Packet{Type: refmqtt.PINGRESP, Version: v})
+		add("base", false, false, &refmqtt.Packet{Type: refmqtt.DISCONNECT, Version: v})
+		if v5 {
+			for _, code := range []byte{0x04, 0x81, 0x8e} {
+				code := code
+				add(fmt.Sprintf("code=0x%02x-no-property-length", code), false, false, &refmqtt.Packet{Type: refmqtt.DISCONNECT, Version: v, Code: code})
+				if code == 0x04 {
+					withProps("disconnect", func() *refmqtt.Packet { return &refmqtt.Packet{Type: refmqtt.DISCONNECT, Version: v, Code: code} }, mainProps)
+				}
+			}
+			withProps("disconnect", func() *refmqtt.Packet { return &refmqtt.Packet{Type: refmqtt.DISCONNECT, Version: v} }, mainProps)
+			add("base", false, false, &refmqtt.Packet{Type: refmqtt.AUTH, Version: v})
+			for _, code := range []byte{0, 0x18, 0x19} {
+				code := code
+				withProps("auth", func() *refmqtt.Packet { return &refmqtt.Packet{Type: refmqtt.AUTH, Version: v, Code: code} }, mainProps)
+			}
+		}
+	}
+	return out
+}
+
+// c06Shape maps a topic string to its wildcard / separator skeleton ("a/+/a").
+func c06Shape(s string) string {
+	var sb strings.Builder
+	prevA := false
+	for i := 0; i < len(s); i++ {
+		switch s[i] {
+		case '/', '+', '#', '$':
+			sb.WriteByte(s[i])
+			prevA = false
+		default:
+			if !prevA {
+				sb.WriteByte('a')
+			}
+			prevA = true
+		}
+	}
+	return sb.String()
+}
+
+// ---------------------------------------------------------------- cross-codec round trip
+
+// c06RejectClass: property-valued shapes are named by the property alone (the property
+// decoder is shared by all packet types), everything else by type and shape.
+func c06RejectClass(typeName, label string) string {
+	if strings.HasPrefix(label, "prop-") {
+		return label
+	}
+	label = strings.Replace(label, "password-without-username=", "password=", 1)
+	return typeName + ":" + label
+}
+
+func c06AllocDelta(fn func()) uint64 {
+	var m0, m1 runtime.MemStats
+	runtime.ReadMemStats(&m0)
+	fn()
+	runtime.ReadMemStats(&m1)
+	return m1.TotalAlloc - m0.TotalAlloc
+}
+
+func (k *c06) checkValue(idx int, cs c06Case) (b1 []byte) {
+	P := cs.P
+	v := P.Version
+	tn := c06TypeName(P.Type)
+	tag := tn + "-" + c06V(v)
+	b1 = refmqtt.Encode(P)
+	cas := func() any {
+		return map[string]any{"kind": "value", "corpus_index": idx, "type": tn, "version": v, "label": cs.label, "reference_encoding_hex": c06Hex(b1), "value": P.String()}
+	}
+	// the reference must agree with itself, otherwise the generator or the reference is wrong
+	if R, n, err := refmqtt.Decode(b1, v); err != nil || n != len(b1) {
+		k.c.Fatal("C06: reference cannot decode its own encoding of %s %s (%s): %v", tag, cs.label, c06Hex(b1), err)
+		return
+	} else if d := c06DiffRef(R, P); d != "" {
+		k.c.Fatal("C06: reference round trip of %s %s differs at %s", tag, cs.label, d)
+		return
+	}
+	k.count("values", 1)
+	k.count("distinct_nontrivial", 1)
+	// A: gmqtt decodes the reference encoding (byte-level oracles included)
+	var res c06Res
+	alloc := c06AllocDelta(func() { res = k.d1.decode(b1, v) })
+	if bound := uint64(64<<10 + 16*len(b1)); alloc > bound {
+		k.violate("alloc-bounded", "well-formed-packet:"+tn, cas, fmt.Sprintf("<= %d bytes allocated for a %d-byte packet", bound, len(b1)), fmt.Sprint(alloc))
+	}
+	res = k.checkBytes("corpus", b1, v, map[string]any{"label": cs.label, "corpus_index": idx}, false)
+	okA := false
+	if res.panicked != "" {
+		return
+	}
+	if res.pkt == nil {
+		if cs.roleOnly {
+			k.count("role_rejected", 1)
+		} else {
+			k.violate("decode-accepts-valid", c06RejectClass(tn, cs.label), cas, "packet decoded", fmt.Sprintf("error %v", res.err))
+		}
+	} else {
+		// res.pkt has been through Pack (selfRoundTrip); decode again for a pristine struct
+		res = k.d1.decode(b1, v)
+		Q := c06FromGmqtt(res.pkt, v)
+		if Q == nil {
+			k.c.Fatal("C06: no conversion for %T", res.pkt)
+			return
+		}
+		if d := c06DiffRef(Q, P); d != "" {
+			k.violate("cross-decode", tag+":"+d, cas, P.String(), res.pkt.String())
+		} else {
+			okA = true
+		}
+	}
+	// B: gmqtt encodes a directly built struct, the reference decodes it
+	g := c06ToGmqtt(P)
+	b2, err, pan := c06Pack(g)
+	okB := false
+	switch {
+	case pan != "":
+		k.violate("no-panic", panicClass(pan), cas, "Pack returns", firstLines(pan, 14))
+	case err != nil:
+		k.violate("cross-encode", tag+":pack-error", cas, "bytes", err.Error())
+	default:
+		b2 = append([]byte{}, b2...)
+		if tb := int(packets.TotalBytes(g)); tb != len(b2) {
+			k.violate("total-bytes", tag+":after-pack-of-built-struct", cas, fmt.Sprint(len(b2)), fmt.Sprint(tb))
+		}
+		R2, n2, err := refmqtt.Decode(b2, v)
+		switch {
+		case err != nil:
+			k.violate("cross-encode", tag+":reference-rejects:"+c06Slug(err), cas, "Pack output decodable, expected "+c06Hex(b1), c06Hex(b2)+": "+err.Error())
+		case n2 != len(b2):
+			k.violate("cross-encode", tag+":length", cas, fmt.Sprint(len(b2)), fmt.Sprint(n2))
+		default:
+			if d := c06DiffRef(R2, P); d != "" {
+				k.violate("cross-encode", tag+":"+d, cas, P.String()+" "+c06Hex(b1), R2.String()+" "+c06Hex(b2))
+			} else {
+				okB = true
+			}
+		}
+	}
+	// C: decoded struct -> Pack -> reference decodes the same value
+	if okA && okB {
+		b3, err, pan := c06Pack(res.pkt)
+		if pan == "" && err == nil {
+			R3, n3, err := refmqtt.Decode(b3, v)
+			if err != nil || n3 != len(b3) {
+				k.violate("cross-reencode", tag+":reference-rejects", cas, "decodable", fmt.Sprintf("%s: %v", c06Hex(b3), err))
+			} else if d := c06DiffRef(R3, P); d != "" {
+				k.violate("cross-reencode", tag+":"+d, cas, P.String(), R3.String()+" "+c06Hex(b3))
+			}
+		}
+	}
+	// D: Message sizes
+	if P.Type == refmqtt.PUBLISH {
+		var pub *packets.Publish
+		if okA {
+			pub = k.d1.decode(b1, v).pkt.(*packets.Publish)
+		} else {
+			pub = g.(*packets.Publish)
+		}
+		k.checkMessage(pub, cas)
+	}
+	return
+}
+
+func (k *c06) checkMessage(pub *packets.Publish, cas func() any) {
+	defer func() {
+		if x := recover(); x != nil {
+			pan := "panic: " + fmt.Sprint(x) + "\n" + string(debug.Stack())
+			k.violate("no-panic", panicClass(pan), cas, "Message conversion returns", firstLines(pan, 14))
+		}
+	}()
+	for _, ids := range [][]uint32{nil, {1}, {128, 16384}, {2097152, 268435455}} {
+		msg := gmqtt.MessageFromPublish(pub)
+		msg.SubscriptionIdentifier = ids
+		for _, mv := range []byte{3, 4, 5} {
+			k.count("message_sizes", 1)
+			want := msg.TotalBytes(mv)
+			pk := gmqtt.MessageToPublish(msg, mv)
+			b, err, pan := c06Pack(pk)
+			if pan != "" {
+				k.violate("no-panic", panicClass(pan), cas, "Pack returns", firstLines(pan, 14))
+				return
+			}
+			if err != nil {
+				k.violate("message-total-bytes", "pack-error", cas, "bytes", err.Error())
+				return
+			}
+			if int(want) != len(b) {
+				cls := fmt.Sprintf("%s:subids=%d", c06V(mv), len(ids))
+				if len(b) > 2097152+4 || len(b) < 1 {
+					cls += ":huge"
+				}
+				k.violate("message-total-bytes", cls, cas, fmt.Sprintf("%d (length of Pack(MessageToPublish))", len(b)), fmt.Sprint(want))
+			}
+			if int(packets.TotalBytes(pk)) != len(b) {
+				k.violate("total-bytes", "PUBLISH-"+c06V(mv)+":after-pack-of-message", cas, fmt.Sprint(len(b)), fmt.Sprint(packets.TotalBytes(pk)))
+			}
+		}
+	}
+}
+
+// ---------------------------------------------------------------- mutation closure
+
+func (k *c06) mutate(idx int, cs c06Case, b1 []byte, maxSubst int) {
+	v := cs.P.Version
+	n := len(b1)
+	seen := map[string]struct{}{string(b1): {}}
+	extra := func(m string) map[string]any {
+		return map[string]any{"origin": c06TypeName(cs.P.Type) + " " + cs.label, "origin_hex": c06Hex(b1), "mutation": m, "corpus_index": idx}
+	}
+	try := func(in []byte, m func() string) {
+		if _, dup := seen[string(in)]; dup {
+			return
+		}
+		seen[string(in)] = struct{}{}
+		k.count("mutants", 1)
+		k.checkBytesLazy("mutation", in, v, extra, m)
+	}
+	buf := make([]byte, 0, n+1)
+	for i := 0; i < n; i++ {
+		i := i
+		try(b1[:i], func() string { return fmt.Sprintf("truncate to %d", i) })
+	}
+	if n <= maxSubst {
+		for i := 0; i < n; i++ {
+			for x := 0; x < 256; x++ {
+				if byte(x) == b1[i] {
+					continue
+				}
+				buf = append(buf[:0], b1...)
+				buf[i] = byte(x)
+				i, x := i, x
+				try(buf, func() string { return fmt.Sprintf("byte %d := 0x%02x", i, x) })
+			}
+		}
+	}
+	for i := 0; i < n; i++ {
+		buf = append(buf[:0], b1[:i]...)
+		buf = append(buf, b1[i+1:]...)
+		i := i
+		try(buf, func() string { return fmt.Sprintf("delete byte %d", i) })
+	}
+	for i := 0; i <= n; i++ {
+		for _, x := range []byte{0x00, 0x80, 0xff} {
+			buf = append(buf[:0], b1[:i]...)
+			buf = append(buf, x)
+			buf = append(buf, b1[i:]...)
+			i, x := i, x
+			try(buf, func() string { return fmt.Sprintf("insert 0x%02x at %d", x, i) })
+		}
+	}
+}
+
+// checkBytesLazy: checkBytes with the descriptive part of the case built only on demand.
+func (k *c06) checkBytesLazy(phase string, in []byte, v byte, extra func(string) map[string]any, m func() string) {
+	k.lazyExtra = func() map[string]any { return extra(m()) }
+	k.checkBytes(phase, in, v, nil, true)
+	k.lazyExtra = nil
+}
+
+// ---------------------------------------------------------------- allocation bound
+
+func c06LegalFlags(t byte) byte {
+	switch t {
+	case refmqtt.PUBREL, refmqtt.SUBSCRIBE, refmqtt.UNSUBSCRIBE:
+		return 2
+	}
+	return 0
+}
+
+// c06BodyPrefix: the first bytes of a plausible body for the type.
+func c06BodyPrefix(t byte, n int) []byte {
+	var b []byte
+	switch t {
+	case refmqtt.CONNECT:
+		b = []byte{0, 4, 'M', 'Q', 'T', 'T', 4, 2}
+	case refmqtt.PUBLISH:
+		b = []byte{0, 1, 't', 'p', 'a', 'y', 'l', 'o'}
+	case refmqtt.SUBSCRIBE, refmqtt.UNSUBSCRIBE:
+		b = []byte{0, 1, 0, 0, 1, 'a', 0, 0}
+	default:
+		b = []byte{0, 1, 0, 0, 0, 0, 0, 0}
+	}
+	return b[:n]
+}
+
+func (k *c06) allocCase(t byte, declared int, supplied int, version byte) {
+	in := []byte{t<<4 | c06LegalFlags(t)}
+	in = refmqtt.AppendVBI(in, uint32(declared))
+	in = append(in, c06BodyPrefix(t, supplied)...)
+	cas := func() any {
+		return map[string]any{"kind": "alloc", "type": c06TypeName(t), "packet_type": t, "declared_remaining_length": declared, "body_bytes_supplied": supplied, "reader_version": version, "input_hex": hex.EncodeToString(in)}
+	}
+	k.count("evaluations", 1)
+	k.count("alloc_cases", 1)
+	var res c06Res
+	delta := c06AllocDelta(func() { res = k.d1.decode(in, version) })
+	if k.verb {
+		fmt.Printf("  decode(%s, %s) allocated %d bytes; pkt=%v err=%v\n", c06Hex(in), c06V(version), delta, res.pkt, res.err)
+	}
+	if res.panicked != "" {
+		k.violate("no-panic", panicClass(res.panicked), cas, "packet or error", firstLines(res.panicked, 14))
+	}
+	if res.pkt != nil && declared > supplied {
+		k.violate("no-packet-from-incomplete-input", "body-shorter-than-declared:"+c06TypeName(t), cas, "error", "accepted "+res.pkt.String())
+	}
+	bound := uint64(64<<10 + 16*len(in))
+	if delta > bound {
+		k.count("alloc_over_bound", 1)
+		k.count("alloc_over_bound:"+c06TypeName(t), 1)
+		cls := "declared-length-allocated-before-read"
+		if delta < uint64(declared) {
+			cls = "allocation-out-of-proportion-to-input"
+		}
+		k.violate("alloc-bounded", cls, cas, fmt.Sprintf("<= %d bytes allocated while decoding %d supplied bytes", bound, len(in)), fmt.Sprintf("%d bytes allocated (declared remaining length %d)", delta, declared))
+	}
+	res.pkt = nil
+	if declared >= 1<<20 {
+		runtime.GC()
+		if declared >= 1<<27 {
+			debug.FreeOSMemory()
+		}
+	}
+}
+
+func (k *c06) allocPhase(thorough bool) {
+	for _, declared := range []int{127, 128, 16383, 16384, 2097151, 2097152, 268435455} {
+		for t := byte(1); t <= 15; t++ {
+			for _, version := range []byte{3, 4, 5} {
+				for supplied := 0; supplied <= 8; supplied++ {
+					if declared == 268435455 {
+						// a handful of 256 MiB declarations only
+						if supplied != 0 && supplied != 8 {
+							continue
+						}
+						if !thorough && (version != 4 || !(t == refmqtt.CONNECT || t == refmqtt.PUBLISH || t == refmqtt.SUBSCRIBE)) {
+							continue
+						}
+						if thorough && version == 3 {
+							continue
+						}
+					} else if declared >= 1<<20 && !thorough && !(supplied == 0 || supplied == 1 || supplied == 8) {
+						continue
+					}
+					k.allocCase(t, declared, supplied, version)
+				}
+			}
+		}
+	}
+}
+
+// ---------------------------------------------------------------- directed length headers
+
+func (k *c06) lengthPhase() {
+	for _, first := range []byte{0x10, 0x30, 0x82, 0xc0, 0xe0, 0xf0} {
+		for _, version := range []byte{3, 4, 5} {
+			for n := 5; n <= 9; n++ { // n length bytes: n-1 continuation bytes and a terminator
+				for _, cont := range []byte{0x80, 0x81} { // 0xff x4 would declare 256 MiB: covered by the alloc phase
+					for _, last := range []byte{0x00, 0x01, 0x7f} {
+						in := []byte{first}
+						in = append(in, bytes.Repeat([]byte{cont}, n-1)...)
+						in = append(in, last)
+						k.checkBytes("length", in, version, map[string]any{"shape": fmt.Sprintf("%d length bytes", n)}, false)
+						in = append(in, 0, 0, 0, 0)
+						k.checkBytes("length", in, version, map[string]any{"shape": fmt.Sprintf("%d length bytes then 4 zero bytes", n)}, false)
+					}
+				}
+			}
+			// a bounded "endless" stream of continuation bytes
+			in := append([]byte{first}, bytes.Repeat([]byte{0x80}, 1<<16)...)
+			k.checkBytes("length", in, version, map[string]any{"shape": "65536 continuation bytes 0x80"}, false)
+		}
+	}
+}
+
+// ---------------------------------------------------------------- property grid
+
+var c06PropIDs = []byte{0x01, 0x02, 0x03, 0x08, 0x09, 0x0B, 0x11, 0x12, 0x13, 0x15, 0x16, 0x17, 0x18, 0x19, 0x1A, 0x1C, 0x1F, 0x21, 0x22, 0x23, 0x24, 0x25, 0x26, 0x27, 0x28, 0x29, 0x2A}
+
+func c06PropBytes(id byte) []byte {
+	switch id {
+	case 0x01, 0x17, 0x19, 0x24, 0x25, 0x28, 0x29, 0x2A:
+		return []byte{id, 1}
+	case 0x13, 0x21, 0x22, 0x23:
+		return []byte{id, 0, 10}
+	case 0x02, 0x11, 0x18, 0x27:
+		return []byte{id, 0, 0, 0, 10}
+	case 0x0B:
+		return []byte{id, 10}
+	case 0x26:
+		return []byte{id, 0, 1, 'k', 0, 1, 'v'}
+	}
+	return []byte{id, 0, 1, 'a'} // strings and binary data
+}
+
+var c06Hosts = []string{"CONNECT", "CONNECT-will", "CONNACK", "PUBLISH", "PUBACK", "PUBREC", "PUBREL", "PUBCOMP", "SUBSCRIBE", "SUBACK", "UNSUBSCRIBE", "UNSUBACK", "DISCONNECT", "AUTH"}
+
+func c06HostPacket(host string, props []byte) []byte {
+	pl := append(refmqtt.AppendVBI(nil, uint32(len(props))), props...)
+	var first byte
+	var body []byte
+	switch host {
+	case "CONNECT":
+		first = 0x10
+		body = append([]byte{0, 4, 'M', 'Q', 'T', 'T', 5, 2, 0, 60}, pl...)
+		body = append(body, 0, 1, 'c')
+	case "CONNECT-will":
+		first = 0x10
+		body = append([]byte{0, 4, 'M', 'Q', 'T', 'T', 5, 6, 0, 60, 0, 0, 1, 'c'}, pl...)
+		body = append(body, 0, 1, 't', 0, 1, 'm')
+	case "CONNACK":
+		first, body = 0x20, append([]byte{0, 0}, pl...)
+	case "PUBLISH":
+		first, body = 0x30, append(append([]byte{0, 1, 't'}, pl...), 'p')
+	case "PUBACK":
+		first, body = 0x40, append([]byte{0, 1, 0}, pl...)
+	case "PUBREC":
+		first, body = 0x50, append([]byte{0, 1, 0}, pl...)
+	case "PUBREL":
+		first, body = 0x62, append([]byte{0, 1, 0}, pl...)
+	case "PUBCOMP":
+		first, body = 0x70, append([]byte{0, 1, 0}, pl...)
+	case "SUBSCRIBE":
+		first, body = 0x82, append(append([]byte{0, 1}, pl...), 0, 1, 'a', 0)
+	case "SUBACK":
+		first, body = 0x90, append(append([]byte{0, 1}, pl...), 0)
+	case "UNSUBSCRIBE":
+		first, body = 0xa2, append(append([]byte{0, 1}, pl...), 0, 1, 'a')
+	case "UNSUBACK":
+		first, body = 0xb0, append(append([]byte{0, 1}, pl...), 0)
+	case "DISCONNECT":
+		first, body = 0xe0, append([]byte{0}, pl...)
+	case "AUTH":
+		first, body = 0xf0, append([]byte{0x18}, pl...)
+	}
+	return append(refmqtt.AppendVBI([]byte{first}, uint32(len(body))), body...)
+}
+
+func (k *c06) propGrid(host string) {
+	try := func(ids ...byte) {
+		var props []byte
+		for _, id := range ids {
+			props = append(props, c06PropBytes(id)...)
+		}
+		in := c06HostPacket(host, props)
+		k.count("propgrid_cases", 1)
+		k.count("distinct_nontrivial", 1)
+		k.checkBytes("propgrid", in, 5, map[string]any{"host": host, "property_ids": fmt.Sprintf("%x", ids)}, true)
+	}
+	for _, id := range c06PropIDs {
+		try(id)
+		try(id, id)
+		if id != 0x15 {
+			try(0x15, id)
+			try(0x15, id, id)
+		}
+		if id != 0x26 {
+			try(id, 0x26, id)
+		}
+	}
+}
+
+// ---------------------------------------------------------------- validators
+
+var c06Alpha = []byte{'a', '/', '+', '#', '$', 0x00, 0xC3, 0xA9, 0xFF, 0xEF, 0xBF, 0xBD}
+
+// c06StrCause names why the reference and gmqtt may differ on s, most basic cause first.
+func c06StrCause(s string) string {
+	switch {
+	case strings.IndexByte(s, 0) >= 0:
+		return "contains-nul"
+	case !utf8.ValidString(s):
+		return "ill-formed-utf8"
+	case strings.ContainsRune(s, utf8.RuneError):
+		return "contains-U+FFFD"
+	}
+	return ""
+}
+
+// c06FilterCause: the first wildcard misuse in f by MQTT 4.7.1 ("" when none).
+func c06FilterCause(f string) string {
+	levels := strings.Split(f, "/")
+	pos := 0
+	for i, l := range levels {
+		for j := 0; j < len(l); j++ {
+			at := "inside-filter"
+			if pos+j == 0 {
+				at = "at-filter-start"
+			}
+			if l[j] == '#' {
+				if len(l) != 1 {
+					return "hash-shares-level:" + at
+				}
+				if i != len(levels)-1 {
+					return "hash-not-last-level:" + at
+				}
+			}
+			if l[j] == '+' && len(l) != 1 {
+				if j == 0 {
+					return "plus-followed-by-character:" + at
+				}
+				return "plus-preceded-by-character:" + at
+			}
+		}
+		pos += len(l) + 1
+	}
+	return ""
+}
+
+func c06Dir(got bool) string {
+	if got {
+		return "accepts-invalid:"
+	}
+	return "rejects-valid:"
+}
+
+func (k *c06) validatorCase(s string) {
+	b := []byte(s)
+	cas := func() any {
+		return map[string]any{"kind": "validator", "string_hex": hex.EncodeToString(b), "string": fmt.Sprintf("%q", s)}
+	}
+	k.count("evaluations", 1)
+	k.count("validator_strings", 1)
+	cause := c06StrCause(s)
+	refU := refmqtt.ValidUTF8(b)
+	refN := refmqtt.ValidTopicName(s)
+	refF := refmqtt.ValidTopicFilter(s)
+	if refU && s != "" {
+		k.count("distinct_nontrivial", 1)
+	}
+	var gU, gN, gF, gV bool
+	func() {
+		defer func() {
+			if x := recover(); x != nil {
+				pan := "panic: " + fmt.Sprint(x) + "\n" + string(debug.Stack())
+				k.violate("no-panic", panicClass(pan), cas, "bool", firstLines(pan, 14))
+			}
+		}()
+		gU = packets.ValidUTF8(b)
+		gN = packets.ValidTopicName(true, b)
+		gF = packets.ValidTopicFilter(true, b)
+		gV = packets.ValidV5Topic(b)
+	}()
+	if gU != refU {
+		c := cause
+		if c == "" {
+			c = "other"
+		}
+		k.violate("validator:ValidUTF8", c06Dir(gU)+c, cas, fmt.Sprint(refU), fmt.Sprint(gU))
+	}
+	if gN != refN {
+		switch {
+		case s == "":
+			k.count("exempt_empty_topic_name_accepted", 1) // legitimate for a v5 PUBLISH with a topic alias
+		default:
+			c := cause
+			if c == "" {
+				c = "wildcard:" + c06Shape(s)
+			}
+			k.violate("validator:ValidTopicName", c06Dir(gN)+c, cas, fmt.Sprint(refN), fmt.Sprint(gN))
+		}
+	}
+	if gF != refF {
+		c := cause
+		if c == "" {
+			c = c06FilterCause(s)
+		}
+		if c == "" {
+			c = "shape:" + c06Shape(s)
+		}
+		k.violate("validator:ValidTopicFilter", c06Dir(gF)+c, cas, fmt.Sprint(refF), fmt.Sprint(gF))
+	}
+	if !strings.HasPrefix(s, "$share/") {
+		if gV != gF {
+			k.violate("validator:ValidV5Topic", "non-shared-filter-differs-from-ValidTopicFilter", cas, fmt.Sprint(gF), fmt.Sprint(gV))
+		}
+		return
+	}
+	// $share/<group>/<filter>: the filter part is judged by gmqtt's own ValidTopicFilter
+	// (its deviations are reported under that validator), the group part by MQTT 4.8.2.
+	k.count("validator_shared_strings", 1)
+	rest := s[len("$share/"):]
+	i := strings.IndexByte(rest, '/')
+	want, c := false, ""
+	if i < 0 {
+		c = "share-without-filter"
+	} else {
+		g, f := rest[:i], rest[i+1:]
+		gOK := g != "" && refmqtt.ValidUTF8([]byte(g)) && !strings.ContainsAny(g, "+#")
+		fOK := f != "" && packets.ValidTopicFilter(true, []byte(f))
+		want = gOK && fOK
+		switch {
+		case g == "":
+			c = "share-group:empty"
+		case c06StrCause(g) != "":
+			c = "share-group:" + c06StrCause(g)
+		case !gOK:
+			c = "share-group:wildcard"
+		default:
+			c = "share-filter:" + c06Shape(f)
+		}
+	}
+	if gV != want {
+		k.violate("validator:ValidV5Topic", c06Dir(gV)+c, cas, fmt.Sprint(want), fmt.Sprint(gV))
+	}
+}
+
+func c06Strings(prefix string, more int, fn func(s string)) {
+	fn(prefix)
+	if more == 0 {
+		return
+	}
+	for _, ch := range c06Alpha {
+		c06Strings(prefix+string([]byte{ch}), more-1, fn)
+	}
+}
+
+// ---------------------------------------------------------------- raw enumeration
+
+var c06Reduced = func() []byte {
+	set := map[byte]bool{}
+	for _, b := range []byte{0x00, 0x01, 0x02, 0x04, 0x7f, 0x80, 0xff} {
+		set[b] = true
+	}
+	for _, b := range c06PropIDs {
+		set[b] = true
+	}
+	var out []byte
+	for b := range set {
+		out = append(out, b)
+	}
+	sort.Slice(out, func(i, j int) bool { return out[i] < out[j] })
+	return out
+}()
+
+// c06Huge: the header declares more than 4 MiB (gmqtt allocates the declared length, see
+// the alloc phase; enumerating thousands of such inputs only measures memclr).
+func c06Huge(in []byte) bool {
+	total, _, _ := refmqtt.Frame(in)
+	return total > 4<<20
+}
+
+func (k *c06) rawAccepted(res c06Res) {
+	if res.pkt != nil {
+		k.count("distinct_nontrivial", 1)
+		k.count("raw_accepted", 1)
+	}
+}
+
+func (k *c06) raw3(first byte) {
+	in := make([]byte, 3)
+	in[0] = first
+	for _, v := range []byte{3, 4, 5} {
+		if first == 0 {
+			k.checkBytes("raw3", nil, v, nil, false)
+		}
+		k.rawAccepted(k.checkBytes("raw3", in[:1], v, nil, false))
+		for a := 0; a < 256; a++ {
+			in[1] = byte(a)
+			k.rawAccepted(k.checkBytes("raw3", in[:2], v, nil, false))
+			for b := 0; b < 256; b++ {
+				in[2] = byte(b)
+				k.rawAccepted(k.checkBytes("raw3", in[:3], v, nil, false))
+			}
+		}
+	}
+}
+
+func (k *c06) raw45(first, second byte, maxLen int) {
+	in := make([]byte, 5)
+	in[0], in[1] = first, second
+	for _, v := range []byte{3, 4, 5} {
+		for _, a := range c06Reduced {
+			in[2] = a
+			for _, b := range c06Reduced {
+				in[3] = b
+				k.rawAccepted(k.checkBytes("raw45", in[:4], v, nil, false))
+				if maxLen >= 5 {
+					for _, c := range c06Reduced {
+						in[4] = c
+						if c06Huge(in[:5]) {
+							k.count("raw_skipped_declared_over_4MiB", 1)
+							continue
+						}
+						k.rawAccepted(k.checkBytes("raw45", in[:5], v, nil, false))
+					}
+				}
+			}
+		}
+	}
+}
+
+// ---------------------------------------------------------------- driver
+
+func c06Replay(c *explore.Ctx, rc map[string]any) {
+	k := newC06(c)
+	k.verb = true
+	defer k.flush()
+	num := func(key string) int {
+		f, _ := rc[key].(float64)
+		return int(f)
+	}
+	kind, _ := rc["kind"].(string)
+	switch kind {
+	case "bytes":
+		in, err := hex.DecodeString(fmt.Sprint(rc["input_hex"]))
+		if err != nil {
+			c.Fatal("replay: bad input_hex: %v", err)
+			return
+		}
+		if n := num("input_len"); n > len(in) && len(in) > 0 {
+			in = append(in, bytes.Repeat([]byte{in[len(in)-1]}, n-len(in))...)
+		}
+		v := byte(num("reader_version"))
+		rv := c06Ref(in, v)
+		fmt.Printf("  reference: ok=%v reason=%q packet=%v\n", rv.ok, rv.reason, rv.p)
+		k.checkBytes(fmt.Sprint(rc["phase"]), in, v, nil, true)
+	case "value":
+		corpus := c06Corpus(!c.Quick())
+		idx := num("corpus_index")
+		if idx >= len(corpus) || corpus[idx].label != rc["label"] {
+			corpus = c06Corpus(true)
+		}
+		if idx >= len(corpus) {
+			c.Fatal("replay: corpus index %d out of range", idx)
+			return
+		}
+		fmt.Printf("  value: %s %s %s\n", c06TypeName(corpus[idx].P.Type), c06V(corpus[idx].P.Version), corpus[idx].label)
+		k.checkValue(idx, corpus[idx])
+	case "alloc":
+		k.allocCase(byte(num("packet_type")), num("declared_remaining_length"), num("body_bytes_supplied"), byte(num("reader_version")))
+	case "validator":
+		b, _ := hex.DecodeString(fmt.Sprint(rc["string_hex"]))
+		fmt.Printf("  string %q: gmqtt ValidUTF8=%v ValidTopicName=%v ValidTopicFilter=%v ValidV5Topic=%v; reference utf8=%v name=%v filter=%v\n", b,
+			packets.ValidUTF8(b), packets.ValidTopicName(true, b), packets.ValidTopicFilter(true, b), packets.ValidV5Topic(b),
+			refmqtt.ValidUTF8(b), refmqtt.ValidTopicName(string(b)), refmqtt.ValidTopicFilter(string(b)))
+		k.validatorCase(string(b))
+	default:
+		c.Fatal("replay: unknown case kind %q", kind)
+	}
+	k.count("evaluations", 2)
+	k.count("distinct_nontrivial", 2)
+	c.Sample(rc)
+}
+
+func runC06(c *explore.Ctx) {
+	c.Level = "exploration"
+	c.Rule = "E5 small-scope inputs through gmqtt's pkg/packets with refmqtt as independent codec. (raw) every byte string of length <=3 and every string of length 4 (thorough: 4-5) over {16 type nibbles x flags 0,2,3,F} x {00,01,02,04,7f,80,ff + every property id}, each under reader versions 3.1/3.1.1/5; (length) 5-9 byte remaining-length fields and a 64 KiB run of 0x80; (alloc) declared lengths 127..268435455 with 0-8 body bytes, allocation measured with runtime.MemStats.TotalAlloc; (corpus) generated well-formed values of all 15 packet types x 3 versions, every legal property alone at min/typical/boundary values plus all-properties packets: reference-encode -> gmqtt decode -> field equality, gmqtt struct -> Pack -> reference decode, TotalBytes, Message.TotalBytes; (mutation) for corpus packets <=200 bytes all truncations, single deletions, insertions of 00/80/ff and, for packets <= 40 bytes (quick: 24), all 255 substitutions of every byte, deduplicated per origin; (propgrid) every property id single/doubled in each of 14 property hosts; (validators) all strings of length <=5 over {a / + # $ NUL C3 A9 FF EF BF BD} and '$share/'+strings of length <=4. Oracles: no panic; bytes consumed <= declared packet length and == it on success; no packet from incomplete input; remaining length <= 4 bytes; allocation <= 64 KiB + 16 x bytes supplied; accepted => Pack output re-decodes DeepEqual and TotalBytes == length; accept/reject vs reference counted per class (d_acc:/d_rej:) and flagged only for invalid UTF-8, duplicate/misplaced property, reserved flags, wildcard in PUBLISH topic under 3.1.1/5. distinct_nontrivial counts, distinct by construction: raw inputs (bytes,version) the decoder accepted + corpus values (deduplicated by encoding) + property-grid packets + validator strings that are non-empty valid UTF-8; mutants are NOT included (distinct only per origin)."
+	c.Trusted = []string{"refmqtt reference codec (written from the OASIS texts, checked against itself on every corpus value)", "runtime.MemStats.TotalAlloc", "reflect.DeepEqual"}
+	c.Assumptions = []string{
+		"an empty topic name accepted by ValidTopicName is not flagged (needed for MQTT 5 topic aliases)",
+		"gmqtt rejecting control characters U+0001..U+001F / U+007F..U+009F is permitted (MQTT-1.5.4 MAY); the corpus avoids them",
+		"server-to-client-only shapes that the server-side decoder rejects (PUBLISH carrying a Subscription Identifier) are built as structs instead of decoded",
+		"accept/reject disagreements outside the explicitly flagged classes are reported as counters only",
+	}
+	// many short-lived allocations (gmqtt allocates the declared length): a small heap that
+	// is collected often is much cheaper than vx's default of collecting at 768 MiB
+	debug.SetGCPercent(200)
+	if rc := replayCase(c); rc != nil {
+		c06Replay(c, rc)
+		return
+	}
+	thorough := !c.Quick()
+	corpus := c06Corpus(thorough)
+	c.Extra["corpus_values"] = len(corpus)
+	walls := map[string]float64{}
+	c.Extra["phase_wall_s"] = walls
+	last := time.Now()
+	only := os.Getenv("C06_PHASES") // debugging aid: comma separated phase names
+	units := func(phase string, n int, fn func(u int)) {
+		if only == "" || strings.Contains(","+only+",", ","+phase+",") {
+			c.Units(phase, n, fn)
+		}
+	}
+	lap := func(phase string) {
+		walls[phase] = float64(time.Since(last).Milliseconds()) / 1000
+		last = time.Now()
+	}
+
+	units("length", 1, func(u int) {
+		k := newC06(c)
+		k.lengthPhase()
+		k.flush()
+	})
+	lap("length")
+	units("alloc", 1, func(u int) {
+		k := newC06(c)
+		k.allocPhase(thorough)
+		k.flush()
+		c.Sample(map[string]any{"phase": "alloc", "example_input_hex": "30ffffff7f0001", "meaning": "PUBLISH declaring 268435455 bytes, 2 body bytes supplied"})
+	})
+	lap("alloc")
+	maxSubst := 24
+	if thorough {
+		maxSubst = 40
+	}
+	units("corpus", len(corpus), func(u int) {
+		k := newC06(c)
+		cs := corpus[u]
+		b1 := k.checkValue(u, cs)
+		if b1 != nil && !cs.big && len(b1) <= 200 {
+			k.count("mutation_origins", 1)
+			k.mutate(u, cs, b1, maxSubst)
+		}
+		k.flush()
+		if u%211 == 5 {
+			c.Sample(map[string]any{"phase": "corpus", "type": c06TypeName(cs.P.Type), "version": cs.P.Version, "label": cs.label, "reference_encoding_hex": c06Hex(b1)})
+		}
+	})
+	lap("corpus")
+	units("propgrid", len(c06Hosts), func(u int) {
+		k := newC06(c)
+		k.propGrid(c06Hosts[u])
+		k.flush()
+	})
+	lap("propgrid")
+	na := len(c06Alpha)
+	units("validators", na*na+1+na, func(u int) {
+		k := newC06(c)
+		switch {
+		case u < na*na:
+			c06Strings(string([]byte{c06Alpha[u/na], c06Alpha[u%na]}), 3, k.validatorCase)
+		case u == na*na:
+			c06Strings("", 1, k.validatorCase)
+			c.Sample(map[string]any{"phase": "validators", "strings": []string{"+a", "a/#", "$share/a/+", "a\x00"}})
+		default:
+			ch := c06Alpha[u-na*na-1]
+			c06Strings("$share/"+string([]byte{ch}), 3, k.validatorCase)
+			if ch == 'a' {
+				k.validatorCase("$share/")
+			}
+		}
+		k.flush()
+	})
+	lap("validators")
+	maxLen := 4
+	if thorough {
+		maxLen = 5
+	}
+	flagsSet := []byte{0, 2, 3, 0xF}
+	units("raw45", 64*len(c06Reduced), func(u int) {
+		k := newC06(c)
+		f := u / len(c06Reduced)
+		first := byte(f/4)<<4 | flagsSet[f%4]
+		k.raw45(first, c06Reduced[u%len(c06Reduced)], maxLen)
+		k.flush()
+	})
+	lap("raw45")
+	units("raw3", 256, func(u int) {
+		k := newC06(c)
+		k.raw3(byte(u))
+		k.flush()
+		if u == 0x30 {
+			c.Sample(map[string]any{"phase": "raw3", "first_byte": "0x30", "inputs": "30, 30 00 .. 30 ff, 30 00 00 .. 30 ff ff under v3.1, v3.1.1, v5"})
+		}
+	})
+	lap("raw3")
+	if !c.IsWorker() {
+		if a, r := c.Get("disagree_gmqtt_accepts_ref_rejects"), c.Get("disagree_gmqtt_rejects_ref_accepts"); a+r > 0 {
+			c.Note("accept/reject disagreements with the reference (first packet of the input): gmqtt accepts / reference rejects = %d (classes d_acc:*), gmqtt rejects / reference accepts = %d (d_rej:* by packet type); only the explicitly forbidden classes are violations", a, r)
+		}
 	}
 }
